@@ -278,6 +278,21 @@ def iter_states(r):
         pass
 
 
+def binding_selftest(ctx, module, corrupted, what, label=None, extra_env=None):
+    """Non-vacuity of a Trace_* judge: `corrupted` are records the real code did NOT produce (accepted records with one
+    field falsified by the caller).  Every one of them must be rejected; an accepted one means the trace specification
+    constrains nothing there, which is a failure of the machinery (exit 2), never a verdict about pydl."""
+    if not corrupted:
+        raise MachineryError('binding self-test of %s (%s): nothing to corrupt' % (module, what))
+    bad = validate_records(ctx, module, corrupted, label=(label or module) + ' self-test', extra_env=extra_env)
+    missed = [k for k in range(len(corrupted)) if k not in bad]
+    ctx.cov['parts']['selftest_' + what] = {'corrupted_records': len(corrupted), 'rejected': len(bad)}
+    if missed:
+        raise MachineryError('binding self-test of %s (%s): %d of %d falsified records were accepted, e.g. %r'
+                             % (module, what, len(missed), len(corrupted), corrupted[missed[0]]))
+    return len(bad)
+
+
 def validate_records(ctx, module, records, label=None, chunk=4000, extra_env=None):
     """Code -> spec: hand recorded calls to a Trace_* module whose Init ranges over the records
     (variables i, ok, why).  Returns {index (0-based): why} for the records the spec rejects.
